@@ -84,6 +84,33 @@ def uses_of(b, l):
     return out
 
 
+SMALL_RESULT_FNS = ("leading_zeros", "trailing_zeros", "count_ones", "count_zeros", "leading_ones", "trailing_ones", "ilog2", "ilog10", "checked_ilog2")
+
+
+def small_bound(F, b, t, block, depth=0):
+    """Upper bound of a term: c08.max_value plus the bit-counting intrinsics (at most the bit width) and closed arithmetic on
+    bounded operands."""
+    import c08
+    from guards import strip_casts
+    v = c08.max_value(F, b, t, block)
+    if v is not None or depth > 6:
+        return v
+    t0 = strip_casts(t)
+    if t0[0] == "call" and t0[1].split("::")[-1].split("<")[0] in SMALL_RESULT_FNS:
+        return 128
+    if t0[0] == "bin" and t0[1] in ("Sub", "Div", "Shr", "Rem"):
+        return small_bound(F, b, t0[2], block, depth + 1)
+    if t0[0] == "bin" and t0[1] in ("Add", "Mul"):
+        x, y = small_bound(F, b, t0[2], block, depth + 1), small_bound(F, b, t0[3], block, depth + 1)
+        if x is not None and y is not None:
+            return x + y if t0[1] == "Add" else x * y
+    if t0[0] == "call" and t0[1].split("::")[-1] in ("min",) and len(t0[2]) == 2:
+        vals = [small_bound(F, b, a, block, depth + 1) for a in t0[2]]
+        vals = [v for v in vals if v is not None]
+        return min(vals) if vals else None
+    return None
+
+
 def scan(F, files=None):
     """(lossy narrowing casts, narrow arithmetic widened): lists of (function, description, where)."""
     import c08
@@ -109,7 +136,7 @@ def scan(F, files=None):
                 continue
             t = b.term_of_operand(st["rv"]["o"])
             if W[frm] > W[to]:
-                bound = c08.max_value(F, b, t, bi)
+                bound = small_bound(F, b, t, bi)
                 if bound is not None and bound < (1 << W[to]):
                     continue
                 us = uses_of(b, st["lhs"]["l"])
@@ -121,12 +148,9 @@ def scan(F, files=None):
                 while isinstance(inner, tuple) and inner and inner[0] == "cast":
                     inner = inner[1]
                 if isinstance(inner, tuple) and inner and inner[0] == "bin" and inner[1] in ("Add", "Mul", "Shl", "Sub"):
-                    ops_bounded = all(c08.max_value(F, b, x, bi) is not None for x in (inner[2], inner[3]))
-                    if inner[1] in ("Add", "Mul") and ops_bounded:
-                        vals = [c08.max_value(F, b, x, bi) for x in (inner[2], inner[3])]
-                        tot = vals[0] + vals[1] if inner[1] == "Add" else vals[0] * vals[1]
-                        if tot < (1 << W[frm]):
-                            continue
+                    tot = small_bound(F, b, inner, bi)
+                    if tot is not None and tot < (1 << W[frm]):
+                        continue        # the whole expression fits the narrower type: widening afterwards changes nothing
                     w2.append((b.name, "%s(..) computed in %s then widened to %s: %s" % (inner[1], frm, to, tstr(inner)[:60]), loc(st["sp"])))
     return w1, w2
 
